@@ -425,6 +425,12 @@ class SchedSocket:
         run, sched = self.run, self.run.sched
         data = bytes(data)
         if self.closed:
+            # a sender that passed the state checks AFTER the loop thread shut the socket down (and before it stored `_sock = None` /
+            # `closed = True`): TransportFail to the caller, nothing written.  Recorded: the thread model lets this write through
+            # (see thrutil.dead_writes)
+            tid0 = sched.me()
+            if tid0 is not None:
+                run.dead_writes.append((tid0, sched.call[tid0]))
             raise OSError(9, 'simulated: socket is closed')
         tid = sched.me()
         if tid is None:
@@ -435,8 +441,10 @@ class SchedSocket:
         m = n - 1
         q = len(data) // n
         kfail = run.fail_at.get((tid, call))
-        # pre-connect cases: the HTTP request goes through the same steps but is kept apart from the frames
-        sink = run.request if (run.pre and data.startswith(b'GET ')) else run.chunks
+        # pre-connect cases: the HTTP request goes through the same steps but is kept apart from the frames (the oracles judge the
+        # frames); where its chunks stand among the frame chunks is recorded (`pos` = number of frame chunks written before)
+        is_req = run.pre and data.startswith(b'GET ')
+        sink = run.request if is_req else run.chunks
         rec = dict(tid=tid, call=call, data=data, written=0, failed=False)
         if sink is run.chunks:
             run.sendalls.append(rec)
@@ -452,7 +460,7 @@ class SchedSocket:
             sched.step('w1', check=(j == 0))
             if kfail == j:
                 boom(j)
-            sink.append((tid, call, 0, data[j * q:(j + 1) * q]))
+            sink.append((tid, call, 0, data[j * q:(j + 1) * q]) + ((len(run.chunks),) if is_req else ()))
             rec['written'] += q
             # a yield point between two chunks, in both modes
             if sched.mode == 'line':
@@ -460,7 +468,7 @@ class SchedSocket:
         sched.step('w2', check=False)
         if kfail == m:
             boom(m)
-        sink.append((tid, call, 1, data[m * q:]))
+        sink.append((tid, call, 1, data[m * q:]) + ((len(run.chunks),) if is_req else ()))
         rec['written'] = len(data)
 
     def recv_into(self, buf, count):
@@ -657,8 +665,9 @@ class Run:
         self.received = []            # texts (bytes) of the Text events the loop thread yielded, in order
         self.lock_stores = []         # source lines that stored a NEW object into session._lock after the constructor's
         self.pre = False              # the case starts BEFORE the connection exists (loop program starts with `cn`)
-        self.request = []             # pre: the chunks of the HTTP request
+        self.request = []             # pre: the chunks of the HTTP request (tid, call, half, bytes, number of frame chunks before it)
         self.pre_waited = False
+        self.dead_writes = []         # (tid, call): a sendall attempted on the socket after the loop thread closed it / stored None
         self.abandon = False          # loop program `ab`: the consumer walks away - the loop thread closes the event generator
 
     def nchunks(self, tid, call):
@@ -770,6 +779,9 @@ def run_real(case):
                 elif 'use:sock' not in kinds:
                     sched.problems.append('unmapped load of _sock by thread %d at %s:%d' % (
                         tid, os.path.basename(f.f_code.co_filename), f.f_lineno))
+                elif self.__dict__.get('_sock_value') is None and f.f_code.co_name == '_sendall':
+                    # `self._sock.sendall` after another thread stored `_sock = None`: AttributeError -> TransportFail
+                    run.dead_writes.append((tid, sched.call[tid]))
             return self.__dict__.get('_sock_value')
 
         def _set_sock(self, value):
@@ -884,7 +896,8 @@ def run_real(case):
             server_sent=[b.hex() for b in run.sent_by_server],
             received=[b.hex() for b in run.received],
             lock_stores=list(run.lock_stores),
-            request=[(t, c, h, b.hex()) for t, c, h, b in run.request],
+            dead_writes=[list(x) for x in run.dead_writes],
+            request=[(t, c, h, b.hex(), pos) for t, c, h, b, pos in run.request],
         )
         for tid in loop_tids:
             out['results'][tid] = ['+'.join(e) if e else '-' for e in run.loop_events]
